@@ -50,6 +50,7 @@ def table(db, fn, never_false=frozenset()):
     inp = new_input(st)
     f = Frame(fn); ex.frames.append(f)
     bind_params(ex, fn, f, st, inp)
+    if not any(v is inp for v in EnvView(st, f.fid).values()): raise Unmodelled('no parse input among the parameters of ' + fn['disp'][:120])
     out = collections.Counter(); viol = []
     for comp in ex.run_fn(fn, f, st):
         s = comp[-1]; p = s.heap[inp.addr]['m_current'].pos
